@@ -362,6 +362,12 @@ def gen_case(ctx):
                                  family=rng.choice(["grid", "dyadic", "touching", "longoverlap"]))
         if fmt == "rttm":   # non-negative times with few decimals
             cs = cases.gen_continuum(rng, n_annot=n, max_units=5, allow_empty=False, labels=labels, family=rng.choice(["grid", "dyadic"]))
+        if fmt == "csv" and rng.random() < 0.25:
+            # fields that start with a blank (csv leaves them unquoted): the tool must read the file exactly as the API does
+            cs["ann"] = {(" " + a if rng.random() < 0.5 else a): [[u[0], u[1], (" " + u[2]) if rng.random() < 0.5 else u[2]] for u in us]
+                         for a, us in cs["ann"].items()}
+            if cat_dissim == "numerical":
+                cs["ann"] = {a: [[u[0], u[1], u[2].strip()] for u in us] for a, us in cs["ann"].items()}
         files.append({"ann": cs["ann"]})
     if len(files) == 2 and rng.random() < 0.6:
         # the second file only uses a strict "inner" subset of the first file's categories (smaller spread / fewer names)
